@@ -12,6 +12,10 @@ Theorem C03_line_array_fidelity : forall (A : Type) (g : option N -> A) (h : A -
   decode_array h (line_array g m n) = m.
 Proof. exact @decode_line_array. Qed.
 
+(* line_array_n (binary line counter) is the same array: the check evaluates it for the result sets with 2^16 .. 2^20 slots *)
+Theorem C03_line_array_n : forall (A : Type) (g : option N -> A) (m : gmap N N) (n : N), line_array g m n = line_array_n g m n.
+Proof. exact @line_array_n_eq. Qed.
+
 (* coveralls / coveralls+: the coverage array (null = not instrumented) carries exactly the instrumented lines and
    their counts, for every count up to 2^64-1; hypotheses the code needs: line numbers >= 1, last line < 2^32-1 *)
 Theorem C03_coveralls_lines : forall c : cov,
